@@ -3,16 +3,18 @@ from ..rules import tracker as T
 from ..rules import process as Pr
 
 EXPLANATION = (
-    "Static analysis. Decides: get_preparation_data ensures the tracker runs before reading its fd/pid, the keys written "
-    "under the tracker entry equal the keys prepare() installs into the child's singleton, field by field; the launch "
-    "obtains the fd through getfd(), makes it inheritable and puts it in the keep-list passed to fork_exec "
-    "(R-TRACKER-SHIP); the tracker's main ignores SIGINT and SIGTERM before its read loop and lifts the inherited mask "
-    "only afterwards; ensure_running blocks {SIGINT, SIGTERM} before the spawn and restores the mask in finally (R-SIG); "
-    "ensure_running runs under its lock, reuses a live tracker, and for a dead one closes the fd, reaps, resets both fields "
-    "and FALLS THROUGH to the launch, which installs fd/pid only after a successful spawn, closes w on failure and r on all "
-    "paths; maybe_unlink ensures the tracker runs first (R-RELAUNCH); the loop ends only at EOF, tested on the raw "
-    "readline() result (R-RT-LOOP); the tracker is started under the module name of this copy (R-VENDOR). Not decided: "
-    "that all processes of a real tree observe one pid; timing of the sweep (follows from pipe EOF semantics)."
+    'Static analysis. Decides: get_preparation_data ensures the tracker runs before reading its fd/pid, the keys '
+    "written under the tracker entry equal the keys prepare() installs into the child's singleton, field by field; "
+    'the launch obtains the fd through getfd(), makes it inheritable and puts it in the keep-list passed to fork_exec '
+    "(R-TRACKER-SHIP); the tracker's main ignores SIGINT and SIGTERM before its read loop and lifts the inherited "
+    'mask only afterwards; ensure_running blocks {SIGINT, SIGTERM} before the spawn and restores the mask in finally '
+    '(R-SIG); ensure_running runs under its lock, reuses a live tracker, and for a dead one closes the fd, reaps, '
+    'resets both fields and FALLS THROUGH to the launch, which installs fd/pid only after a successful spawn, closes '
+    'w on failure and r on all paths; maybe_unlink ensures the tracker runs first (R-RELAUNCH); the loop ends only at '
+    'EOF, tested on the raw readline() result (R-RT-LOOP); the tracker is started under the module name of this copy '
+    '(R-VENDOR). Also decided: in the launch the tracker fd is obtained before the preparation data records fd/pid '
+    '(R-TRACKER-SHIP). Not decided: that all processes of a real tree observe one pid; timing of the sweep (follows '
+    'from pipe EOF semantics).'
 )
 
 
